@@ -239,12 +239,16 @@ Section Resolve.
     mkEnv rootDraft7 (s_schema root) nodes (map (fun ls => (fst ls, info_of (fst ls))) nodes).
 End Resolve.
 
+(* the base URI in the form that resolving a reference against it gives (no dot segments) *)
+Definition norm_base (baseURI : str) (b : uri) : uri :=
+  match baseURI with [] => b | _ => resolve_reference b empty_uri end.
+
 (** Schema.Resolve (without ValidateDefaults, which needs the evaluator: dfl/Defaults.v) *)
 Definition Resolve (re_ok : str -> bool) (fuel : nat) (root : schema) (baseURI : str)
            (loader : option (list (str * option schema))) : res (env * list str) :=
   match (match baseURI with [] => POk empty_uri | _ => parse_uri baseURI end) with
-  | POk base =>
-      r <- resolve_doc re_ok loader (detectDraft7 root) fuel (mkR [] [] [] []) root base ;;
+  | POk base0 =>
+      r <- resolve_doc re_ok loader (detectDraft7 root) fuel (mkR [] [] [] []) root (norm_base baseURI base0) ;;
       Ok (build_env (detectDraft7 root) root (fst r), r_calls (fst r))
   | _ => Err
   end.
